@@ -272,3 +272,13 @@ PROPS["C11"] = dict(
     assumptions=["Cast values outside the target range are not generated (C conversion is undefined there)"],
     stages=lambda tier: [mc("const-ops", "MC_C11.tla", "MC_C11_%s.cfg" % tier, min_cases=2000)],
 )
+
+PROPS["C05"] = dict(
+    rule="BFS: 1-D complete lattice L<=5 x k<=3 x stride,dilation in 1..2 x pads 0..2 per side x batch 1..2 x bias, 4 auto_pad modes; 2-D "
+         "H,W in 2..4 x kh,kw in 1..3 (non-square images and kernels) x 8 anisotropic stride/dilation combinations x 10 asymmetric pad "
+         "vectors, auto_pad x 4 stride pairs, N,C,M in 1..2, kernel_shape given, f64, group 2 (thorough: L<=6, H,W<=5, strides/dilations "
+         "up to 3, pads up to 3, N,C,M up to 3); images/kernels carry distinct ids so every output element is exact; non-trivial = "
+         "expected tensor with more than one element",
+    assumptions=["configurations whose output extent would be < 1 or whose attributes are malformed are no-crash only"],
+    stages=lambda tier: [mc("conv", "MC_C05.tla", "MC_C05_%s.cfg" % tier, min_cases=9000)],
+)
